@@ -1128,21 +1128,46 @@ def F3F4(F, rep, FL):
 
 
 def F7(F, rep):
-    """the compressed file is opened exactly as the caller asked: CompressedFile::open passes its mode parameter on unchanged, once.  An
-    added flag (ios::in to "update in place", app, ate) keeps what an earlier file at that path held: the bytes written then depend on
-    that earlier content"""
-    fns = F.functions.get('Vector::BLF::CompressedFile::open', [])
-    if not fns:
-        raise AnalysisBroken('CompressedFile::open vanished')
-    fn = fns[0]
-    rep.count('F7')
-    pids = [p_['id'] for p_ in fn['params'][1:2]]     # (filename, mode)
-    opens = [n for n in walk(fn['body']) if n.get('k') == 'Call' and n.get('fn') == 'open' and (member_path(n.get('obj')) or (None,))[-1] == 'm_file']
-    ok = len(opens) == 1 and pids and len(opens[0].get('args', [])) >= 2 and local_id(deep_resolve(opens[0]['args'][1], fn)) == pids[0] and not Flow_modified(fn, pids[0])
-    rep.ob('F7', 'CompressedFile::open|mode', bool(ok), rep.fn_site(fn),
-           'CompressedFile::open opens the stream once, with the mode it was given' if ok else
-           'CompressedFile::open opens the stream %d time(s) / with a mode other than its parameter (%s): what an earlier file at that path held can '
-           'survive into the new one' % (len(opens), ', '.join(expr_str(o['args'][1]) for o in opens if len(o.get('args', [])) > 1)), nontrivial=True)
+    """the compressed file is opened exactly as the caller asked: File::open and CompressedFile::open pass their mode parameter on, once,
+    with nothing added but ios::binary.  An added flag (ios::in to "update in place", app, ate) keeps what an earlier file at that path
+    held: the bytes written then depend on that earlier content"""
+    def terms(e):
+        e = strip_all_casts(e)
+        while isinstance(e, dict) and e.get('k') == 'Paren':
+            e = strip_all_casts(e.get('sub'))
+        if isinstance(e, dict) and e.get('k') == 'Bin' and e.get('op') == '|':
+            return terms(e['lhs']) + terms(e['rhs'])
+        if isinstance(e, dict) and e.get('k') == 'Call' and e.get('fn') in ('operator|',) and len(e.get('args', [])) == 2:
+            return terms(e['args'][0]) + terms(e['args'][1])
+        return [e]
+
+    for qn, recv in (('Vector::BLF::CompressedFile::open', 'm_file'), (FILE + '::open', 'm_compressedFile')):
+        fns = F.functions.get(qn, [])
+        if not fns:
+            raise AnalysisBroken('%s vanished' % qn)
+        for fn in fns:
+            if len(fn['params']) < 2:
+                continue
+            rep.count('F7')
+            pid = fn['params'][1]['id']     # (filename, mode)
+            opens = [n for n in walk(fn['body']) if n.get('k') == 'Call' and n.get('fn') == 'open' and (member_path(n.get('obj')) or (None,))[-1] == recv]
+            if not opens:
+                # an overload that only delegates (open(const std::string &, mode) -> open(filename.c_str(), mode)) hands the mode on as it is
+                opens = [n for n in walk(fn['body']) if n.get('k') == 'Call' and n.get('fn') == 'open' and (n.get('cls') or '').startswith(qn.rsplit('::', 1)[0])
+                         and member_path(n.get('obj')) in (None, (), ('this',))]
+            ok = len(opens) == 1 and len(opens[0].get('args', [])) >= 2 and not Flow_modified(fn, pid)
+            if ok:
+                ts = terms(deep_resolve(opens[0]['args'][1], fn))
+                ts = [t for t in ts for t in terms(deep_resolve(t, fn))]
+                own = [t for t in ts if local_id(t) == pid]
+                rest = [t for t in ts if local_id(t) != pid and not expr_str(t).endswith('binary')]
+                ok = len(own) >= 1 and not rest
+            short = qn.split('::', 2)[-1]
+            rep.ob('F7', '%s|mode' % short, bool(ok), rep.fn_site(fn),
+                   '%s opens the file once, with the mode it was given (and ios::binary)' % short if ok else
+                   '%s opens the file %d time(s) / with a mode other than its parameter and ios::binary (%s): what an earlier file at that path held '
+                   'can survive into the new one' % (short, len(opens), ', '.join(expr_str(o['args'][1]) for o in opens if len(o.get('args', [])) > 1)),
+                   nontrivial=True)
 
 
 def F4s(F, rep):
